@@ -12,7 +12,7 @@ CONF = {
         "level_note": "Trusted: the 10-line bit-serial reference in harness/fitmodel/base.go. Not assumed: that a multi-byte Write is the composition of single-byte steps (an independently written change, seeded/C14-c, broke exactly that for a 2^-64 class of inputs; the embedded-sums family was added for it, other coincidences of that kind could still escape).",
         "quick": {"checks": 3000, "timeout": 120},
         "thorough": {"checks": 300000, "timeout": 600},
-        "rule": "every write case is also fed with io.Copy from readers that deliver the data whole, in pieces, byte by byte, and with the last piece together with io.EOF. large-writes: a fixed list (lengths 256, 4096, 32768, 65536, 131072, 196608, 2^20, each -1/0/+1) and up to 60 (thorough 3000) drawn lengths up to 300000 or 2^k+-2, written in one Write and in pieces cut around 64 KiB offsets; the data is a xorshift stream given by its seed; non-trivial = a single write of 64 KiB or more. embedded-sums: 50 per rapid case of data || own CRC little-endian || 0-16 zero bytes || tail, 8-byte aligned or not, written whole or split once. enumerated: every (16-bit register state, input byte) pair, the state reached through the public API "
+        "rule": "every write case is also fed with io.WriteString (cut at the same points) and, if offered, WriteByte; a fifth of the partition cases are UTF-8 text. every write case is also fed with io.Copy from readers that deliver the data whole, in pieces, byte by byte, and with the last piece together with io.EOF. large-writes: a fixed list (lengths 256, 4096, 32768, 65536, 131072, 196608, 2^20, each -1/0/+1) and up to 60 (thorough 3000) drawn lengths up to 300000 or 2^k+-2, written in one Write and in pieces cut around 64 KiB offsets; the data is a xorshift stream given by its seed; non-trivial = a single write of 64 KiB or more. embedded-sums: 50 per rapid case of data || own CRC little-endian || 0-16 zero bytes || tail, 8-byte aligned or not, written whole or split once. enumerated: every (16-bit register state, input byte) pair, the state reached through the public API "
                 "by a 2-byte prefix (bijection computed with the bit-serial reference); each pair is distinct and counted "
                 "non-trivial. generated: byte strings of 0..5000 bytes with 0..8 write boundaries (empty writes allowed) "
                 "and a Reset point; non-trivial = at least 3 write pieces, distinct by fingerprint of (data, cuts, reset). "
@@ -29,7 +29,7 @@ CONF["C02"] = {
     "level_note": "Trusted: harness/fitmodel (base type table from the FIT protocol document, interpreter), the hook's table export (which struct field a wire field lands in), the reading of 'compatible' = same type or an integer type of the same signedness that is not wider. Narrow fields carrying their own invalid pattern, latitude exactly +90 degrees and reference-less time situations are not decided (counted as undecided). Accumulated component destinations are compared by C18.",
     "quick": {"checks": 4000, "timeout": 300, "shrinktime": "10s"},
     "thorough": {"checks": 60000, "timeout": 1500, "shards": 8, "shrinktime": "30s"},
-    "rule": "one stream in ten consists of the messages that carry local times (activity, monitoring, monitoring_info, schedule) with a third of the local times at offset 0, +-1 s, whole and half hours from the reference; drawn chunkings include empty reads. a third of the streams are read through a drawn chunking; boundary: up to 40 (thorough 300) small streams, each decoded once per byte position with the decoder's 4096-byte buffer boundary slid over it by filler records. sweep: one single-field stream per (profile field of an observable message, compatible definition type incl. narrower same-signedness integers / array lengths 1, len-1, len, len+1, max / string sizes, byte order, boundary value) - distinct by construction, all non-trivial. streams: rapid GenStream (file type, 1..24 records over hosted, unhosted and unknown messages, compatible definitions, field permutations, unknown and developer fields, redefinitions, compressed headers); non-trivial = at least one big-endian multi-byte, narrower, negative signed, array, string, coordinate or time field; distinct by fingerprint of the stream. neighbours: same generator, unknown messages/fields/developer fields removed, digests of the remaining messages must be equal; non-trivial = something was removed.",
+    "rule": "a sixth of the streams (half of the local-time streams) are decoded with DecodeChained as the second file of a chain whose first file leaves definitions on local types 0-5 and a time reference behind. one stream in ten consists of the messages that carry local times (activity, monitoring, monitoring_info, schedule) with a third of the local times at offset 0, +-1 s, whole and half hours from the reference; drawn chunkings include empty reads. a third of the streams are read through a drawn chunking; boundary: up to 40 (thorough 300) small streams, each decoded once per byte position with the decoder's 4096-byte buffer boundary slid over it by filler records. sweep: one single-field stream per (profile field of an observable message, compatible definition type incl. narrower same-signedness integers / array lengths 1, len-1, len, len+1, max / string sizes, byte order, boundary value) - distinct by construction, all non-trivial. streams: rapid GenStream (file type, 1..24 records over hosted, unhosted and unknown messages, compatible definitions, field permutations, unknown and developer fields, redefinitions, compressed headers); non-trivial = at least one big-endian multi-byte, narrower, negative signed, array, string, coordinate or time field; distinct by fingerprint of the stream. neighbours: same generator, unknown messages/fields/developer fields removed, digests of the remaining messages must be equal; non-trivial = something was removed.",
     "assumptions": ["fitmodel base type table and interpreter are correct readings of the FIT protocol", "hook table export is faithful (it copies the table entries)"],
 }
 
@@ -42,7 +42,7 @@ CONF["C01"] = {
     "level_note": "Trusted: recover() sees every panic on the calling goroutine (the library starts none); readers that violate io.Reader (0,nil forever) are outside the domain. Multi-field interactions are sampled, not enumerated.",
     "quick": {"checks": 6000, "timeout": 600, "shrinktime": "10s"},
     "thorough": {"checks": 40000, "shards": 8, "timeout": 3000, "shrinktime": "30s", "fuzz": {"target": "FuzzDecodeAll", "seconds": 150}},
-    "rule": "one drawn chunking in six also returns empty reads ((0, nil) on every 2nd/3rd/5th/17th call). chain-carry: two-member chains whose second member uses a local type only the first defined, for every known message number and 4 unknown ones x local types {0,1,5,15} x 3 second-member shapes, through all six entry points; one mutant in eleven is a chain of 2-3 images whose later members are variants of the first (definitions stripped, file_id data record dropped, spec mutations). grid: file = header + file_id + one definition with one field (num, size, base byte) in one byte order + one data record + CRC; every cell is distinct; non-trivial = Decode accepted the definition and the field is a profile field (a value is stored by reflection). mutants: rapid-drawn structural mutations (sizes, base bytes, field numbers, message numbers, byte order, local types, duplicate/drop/swap/truncate records, developer flags, 255-field definitions, header fields) of generated streams and of repository .fit files, CRC/size repaired 70% of the time, plus raw byte strings; read through whole/1-byte/fixed/list/data+EOF chunkings; non-trivial = DecodeHeader accepts the input (it got past the header); distinct by fingerprint of the bytes.",
+    "rule": "one generated stream in eight is a local-time stream. one drawn chunking in six also returns empty reads ((0, nil) on every 2nd/3rd/5th/17th call). chain-carry: two-member chains whose second member uses a local type only the first defined, for every known message number and 4 unknown ones x local types {0,1,5,15} x 3 second-member shapes, through all six entry points; one mutant in eleven is a chain of 2-3 images whose later members are variants of the first (definitions stripped, file_id data record dropped, spec mutations). grid: file = header + file_id + one definition with one field (num, size, base byte) in one byte order + one data record + CRC; every cell is distinct; non-trivial = Decode accepted the definition and the field is a profile field (a value is stored by reflection). mutants: rapid-drawn structural mutations (sizes, base bytes, field numbers, message numbers, byte order, local types, duplicate/drop/swap/truncate records, developer flags, 255-field definitions, header fields) of generated streams and of repository .fit files, CRC/size repaired 70% of the time, plus raw byte strings; read through whole/1-byte/fixed/list/data+EOF chunkings; non-trivial = DecodeHeader accepts the input (it got past the header); distinct by fingerprint of the bytes.",
     "assumptions": ["recover() on the calling goroutine observes every panic of the library", "a decode of a <20 KiB input that takes more than 20 s is a hang"],
 }
 
@@ -55,7 +55,7 @@ CONF["C03"] = {
     "level_note": "Trusted: the exported container structs are the specification of what a file type holds (slice member = all in order, pointer member = last); File-level slots (FileId, FileCreator, TimestampCorrelation) take precedence over containers. Repeated file_id messages always carry the same type (changing it mid-stream is finding D13 under C07).",
     "quick": {"checks": 4000, "timeout": 300, "shrinktime": "10s"},
     "thorough": {"checks": 150000, "timeout": 1500, "shards": 4, "shrinktime": "30s"},
-    "rule": "items may end in a zero-size tail (size-0 string field, size-0 developer field, developer flag without fields; the last item in 40% of the sequences). sequences also use compressed-timestamp headers on local types 0-3 and unknown messages with 324-byte payloads. typebytes: each of the 256 file_id type bytes through Decode and NewFile, then all 17 accessors (distinct, all counted). pairs: each (file type, known message number) with 3 tagged messages of that type on two local types and both byte orders, interleaved with another hosted type. sequences: rapid-drawn 1..30 messages over a focus set of 3 hosted types plus other hosted, unhosted known and unknown messages, each tagged with its position in a marker field, on random local types and byte orders; non-trivial = at least 2 message types and a hosted type occurring at least twice; distinct by fingerprint of the sequence.",
+    "rule": "a third of the items carry up to six more unsigned scalar fields with small valid values besides the marker. items may end in a zero-size tail (size-0 string field, size-0 developer field, developer flag without fields; the last item in 40% of the sequences). sequences also use compressed-timestamp headers on local types 0-3 and unknown messages with 324-byte payloads. typebytes: each of the 256 file_id type bytes through Decode and NewFile, then all 17 accessors (distinct, all counted). pairs: each (file type, known message number) with 3 tagged messages of that type on two local types and both byte orders, interleaved with another hosted type. sequences: rapid-drawn 1..30 messages over a focus set of 3 hosted types plus other hosted, unhosted known and unknown messages, each tagged with its position in a marker field, on random local types and byte orders; non-trivial = at least 2 message types and a hosted type occurring at least twice; distinct by fingerprint of the sequence.",
     "assumptions": ["exported container struct members are the routing specification", "marker fields are unsigned scalars outside component expansion so tags survive decoding unchanged (checked by C02)"],
 }
 
@@ -67,7 +67,7 @@ CONF["C05"] = {
     "level_note": "Trusted: harness/fitmodel.Parse and the bitwise CRC; the mapping File value -> wire bytes (strings cut to length-1 and NUL padded, arrays cut/padded to the profile length, local times as wall-clock seconds). An Encode error with nothing written is outside this property (counted).",
     "quick": {"checks": 3000, "timeout": 300, "shrinktime": "10s"},
     "thorough": {"checks": 100000, "timeout": 1500, "shards": 8, "shrinktime": "30s"},
-    "rule": "two files in five are encoded right after an Encode call that fails (the same File with a non-UTF-8 string, or into a writer that refuses data after 9 bytes). big-file: activities with 2300 and 4700 records (data sections beyond 64 and 128 KiB) in both byte orders; local timestamps are drawn in fixed zones and in ten tz-database Locations (daylight saving, 30-minute shifts, changed standard offsets); strings include U+FFFD and the first/last code point of each UTF-8 length. one file in six has a long slot (256-600 sparse messages, a field of their own on messages 255/256/511/512/first/last). files: rapid GenFile (file type, header size, protocol, byte order, 0..4 messages per slice slot, each field set with probability 25-50% to boundary-biased values, strings and arrays sometimes longer than the profile length); non-trivial = a slice slot holding at least 2 messages with different sets of set fields (group definition is a proper union); distinct by fingerprint of the spec. empty+all-invalid: every file type x header size x byte order, empty and with one all-invalid message per slot.",
+    "rule": "a quarter of the Files carry stale header CRC, data size and file CRC values from an earlier life. two files in five are encoded right after an Encode call that fails (the same File with a non-UTF-8 string, or into a writer that refuses data after 9 bytes). big-file: activities with 2300 and 4700 records (data sections beyond 64 and 128 KiB) in both byte orders; local timestamps are drawn in fixed zones and in ten tz-database Locations (daylight saving, 30-minute shifts, changed standard offsets); strings include U+FFFD and the first/last code point of each UTF-8 length. one file in six has a long slot (256-600 sparse messages, a field of their own on messages 255/256/511/512/first/last). files: rapid GenFile (file type, header size, protocol, byte order, 0..4 messages per slice slot, each field set with probability 25-50% to boundary-biased values, strings and arrays sometimes longer than the profile length); non-trivial = a slice slot holding at least 2 messages with different sets of set fields (group definition is a proper union); distinct by fingerprint of the spec. empty+all-invalid: every file type x header size x byte order, empty and with one all-invalid message per slot.",
     "assumptions": ["fitmodel.Parse implements the FIT file grammar", "Files are built with NewHeader/NewFile/NewXMsg and exported fields only"],
 }
 CONF["C06"] = {
@@ -90,7 +90,7 @@ CONF["C07"] = {
     "level_note": "Trusted: the comparator's equivalences are the ones the property names. Open findings D9, D13, D15, D16, K1 (and D10/D11 where accumulated destinations are involved) are excluded by signature; each is reproduced by a dedicated input on every run.",
     "quick": {"checks": 2500, "timeout": 400, "shrinktime": "10s"},
     "thorough": {"checks": 60000, "timeout": 2400, "shards": 8, "shrinktime": "30s", "fuzz": {"target": "FuzzReencode", "seconds": 150}},
-    "rule": "wide: every message type of 30+ fields with all its fields on the wire, both byte orders; one stream in six draws definitions with up to 130 fields. corpus: every .fit file under testdata (quick: up to 200 kB) x both output byte orders. streams: rapid GenStream, accepted by construction. mutants: structural mutations of generated streams and parsed corpus files, framing repaired. non-trivial = Decode accepted the input (and, for generated streams, it has at least one message beyond file_id); distinct by fingerprint of the input bytes. Cases are vacuous when Decode rejects the input (counted in evaluations only).",
+    "rule": "a quarter of the inputs (chosen by their last byte) are re-encoded right after an Encode call that fails. wide: every message type of 30+ fields with all its fields on the wire, both byte orders; one stream in six draws definitions with up to 130 fields. corpus: every .fit file under testdata (quick: up to 200 kB) x both output byte orders. streams: rapid GenStream, accepted by construction. mutants: structural mutations of generated streams and parsed corpus files, framing repaired. non-trivial = Decode accepted the input (and, for generated streams, it has at least one message beyond file_id); distinct by fingerprint of the input bytes. Cases are vacuous when Decode rejects the input (counted in evaluations only).",
     "assumptions": ["strings compare up to the longest whole-character prefix that fits length-1 bytes; arrays up to the profile length"],
 }
 
@@ -103,7 +103,7 @@ CONF["C04"] = {
     "level_note": "Trusted: CRC-16 with a degree-16 generator detects every burst of length <= 16 (so a correct implementation has no excuse); harness bitwise CRC; the independent header verdict 'size 14 and stored != 0 and stored != CRC(first 12 bytes), or unsupported protocol major, or data type != .FIT'. Header sizes other than 12/14 are outside the domain of Header.CheckIntegrity here.",
     "quick": {"checks": 24, "timeout": 400, "shrinktime": "10s"},
     "thorough": {"checks": 400, "timeout": 2400, "shrinktime": "30s"},
-    "rule": "bits are numbered in the order the reflected CRC and a serial link process them (least significant bit of each byte first). bursts: each rapid case draws one valid file (<= 700 bytes) and enumerates every admissible (bit position, burst pattern) pair on it, plus every 1- and 2-byte window overwritten with 0x00 and 0xFF: 16 solid runs, 15 end-points-only runs and 17 position-seeded patterns of length 3..16; each corrupted image is distinct (different error polynomial) and non-trivial (it differs from the valid file); counted by the enumerator, split by region (header, header/data boundary, records, data/crc boundary, file crc). bursts-all (thorough): all 32768 patterns with first and last bit set. headers: 100 generated headers per rapid case; non-trivial = 14-byte header with a wrong non-zero CRC; header-grid: sizes x 7 protocol bytes x 4 data types x 3 CRC modes.",
+    "rule": "encoded: 12 Files per rapid case (two thirds with stale Header.CRC / DataSize / CRC values) are encoded and must pass Decode, CheckIntegrity(false/true) under every standard chunking. bits are numbered in the order the reflected CRC and a serial link process them (least significant bit of each byte first). bursts: each rapid case draws one valid file (<= 700 bytes) and enumerates every admissible (bit position, burst pattern) pair on it, plus every 1- and 2-byte window overwritten with 0x00 and 0xFF: 16 solid runs, 15 end-points-only runs and 17 position-seeded patterns of length 3..16; each corrupted image is distinct (different error polynomial) and non-trivial (it differs from the valid file); counted by the enumerator, split by region (header, header/data boundary, records, data/crc boundary, file crc). bursts-all (thorough): all 32768 patterns with first and last bit set. headers: 100 generated headers per rapid case; non-trivial = 14-byte header with a wrong non-zero CRC; header-grid: sizes x 7 protocol bytes x 4 data types x 3 CRC modes.",
     "assumptions": ["burst-error detection theorem for CRC-16 (generator x^16+x^15+x^2+1 has a non-zero constant term)"],
 }
 
@@ -160,7 +160,7 @@ CONF["C16"] = {
     "level_note": "Trusted: reference interpreter tallies (unknown message = data record of a message number absent from the profile; unknown field = record of a known message carrying a field number not listed).",
     "quick": {"checks": 2500, "timeout": 300, "shrinktime": "10s"},
     "thorough": {"checks": 60000, "timeout": 1500, "shards": 8, "shrinktime": "30s"},
-    "rule": "options: GenStream (1..20 records) x drawn chunking x failure mode (none / undefined local type inserted / cut at a drawn offset / bad CRC) decoded under the 8 option sets (8 evaluations per case); non-trivial = the stream has at least one unknown message and at least one unknown field of a known message; distinct by fingerprint of (stream, chunking, failure mode).",
+    "rule": "every well-formed stream is also decoded twice in one DecodeChained call with option sets 110 and 111: both files must report the unknown lists a single Decode reports, and the logger must see both. options: GenStream (1..20 records) x drawn chunking x failure mode (none / undefined local type inserted / cut at a drawn offset / bad CRC) decoded under the 8 option sets (8 evaluations per case); non-trivial = the stream has at least one unknown message and at least one unknown field of a known message; distinct by fingerprint of (stream, chunking, failure mode).",
     "assumptions": ["reference interpreter tallies"],
 }
 
@@ -223,7 +223,7 @@ CONF["C08"] = {
     "level_note": "Trusted: the digest covers everything observable through the public surface. record.distance derived from compressed_speed_distance is left out while finding K1 is open (K1 is reproduced by a dedicated two-call history on every run).",
     "quick": {"checks": 150, "timeout": 400, "shrinktime": "10s", "steps": 30},
     "thorough": {"checks": 4000, "timeout": 2400, "shards": 8, "shrinktime": "30s", "steps": 60},
-    "rule": "call kinds chainedopts (DecodeChained with the shared option values) and decodelogger (Decode with a debug logger whose output is discarded). the pool also holds 20 inputs that are rejected at each decoding stage (cut inside the header after a legal size byte, at its end, inside the records, inside the CRC; illegal size byte; wrong CRC) and the call kind decodefault (Decode through a reader that fails with an error of its own, different per input, after 1..200 bytes; the result records the text and errors.Is against that cause). call kinds also include encodebad (a File with a non-UTF-8 string: Encode fails part-way) and encodefw (a writer that refuses the data); decode-with-options calls share one package-level options slice; the pool also holds 8 streams whose local timestamps differ in zone offset by seconds, out-of-domain Files and byte arrays longer/shorter than the profile length. pool (drawn from the seed): repository files up to 6 kB, 16 generated streams, 4 streams with accumulating component sources, 4 chains, 12 generated Files. histories: rapid t.Repeat over the 6 call kinds + repeatLast with drawn inputs, each step compared with its fresh-process baseline (one evaluation per step); non-trivial = a history of at least 3 calls in which a call is preceded by a different call; distinct by fingerprint of the op list. encode-across-processes: every (File, order) in a second fresh process.",
+    "rule": "call kind header (DecodeHeader); the pool has twin inputs (a definition the profile rules out for messages 20, 18, 34, 21, 0 and the same definition for the unknown messages 256 and 0xFF00 above them). call kinds chainedopts (DecodeChained with the shared option values) and decodelogger (Decode with a debug logger whose output is discarded). the pool also holds 20 inputs that are rejected at each decoding stage (cut inside the header after a legal size byte, at its end, inside the records, inside the CRC; illegal size byte; wrong CRC) and the call kind decodefault (Decode through a reader that fails with an error of its own, different per input, after 1..200 bytes; the result records the text and errors.Is against that cause). call kinds also include encodebad (a File with a non-UTF-8 string: Encode fails part-way) and encodefw (a writer that refuses the data); decode-with-options calls share one package-level options slice; the pool also holds 8 streams whose local timestamps differ in zone offset by seconds, out-of-domain Files and byte arrays longer/shorter than the profile length. pool (drawn from the seed): repository files up to 6 kB, 16 generated streams, 4 streams with accumulating component sources, 4 chains, 12 generated Files. histories: rapid t.Repeat over the 6 call kinds + repeatLast with drawn inputs, each step compared with its fresh-process baseline (one evaluation per step); non-trivial = a history of at least 3 calls in which a call is preceded by a different call; distinct by fingerprint of the op list. encode-across-processes: every (File, order) in a second fresh process.",
     "assumptions": ["a freshly started process has no library state"],
 }
 CONF["C09"] = {
@@ -235,7 +235,7 @@ CONF["C09"] = {
     "level_note": "Trusted: Go race detector (no false positives); the program keeps inputs independent by construction (each call builds its own reader/File). Campaign A draws only inputs that do not feed the package-level component accumulators: any race report there is a violation. Campaign B draws inputs that do; a report whose two access stacks both start in uint32Accumulator.accumulate / RecordMsg.expandComponents is finding K1, anything else is a violation.",
     "quick": {"checks": 8, "timeout": 600, "shrinktime": "20s"},
     "thorough": {"checks": 500, "timeout": 3000, "shrinktime": "60s"},
-    "rule": "focused: one program per input family (local timestamps, generated streams, rejected inputs, chains, repository files, accumulating streams) with all 8 goroutines on inputs of that family. inputs include the 20 rejected-at-each-stage inputs and the decodefault call kind of C08 (calls that fail inside the header overlap in almost every program). every program runs in a fresh worker process in which it is the first use of the library (the sequential baseline is computed afterwards); call kinds as in C08, including failing Encode calls and shared option values. each rapid case is one program: G in 2..16 goroutines, each 5..40 calls drawn from the 6 call kinds on pool inputs (campaign A: inputs without accumulating sources, B: with), released together by a barrier under a drawn GOMAXPROCS; all programs are counted non-trivial only if distinct by fingerprint; the class 'program with overlapping same-kind calls' (measured with per-call timestamps) shows how many actually overlapped.",
+    "rule": "call kind header (DecodeHeader) and the twin inputs of C08. focused: one program per input family (local timestamps, generated streams, rejected inputs, chains, repository files, accumulating streams) with all 8 goroutines on inputs of that family. inputs include the 20 rejected-at-each-stage inputs and the decodefault call kind of C08 (calls that fail inside the header overlap in almost every program). every program runs in a fresh worker process in which it is the first use of the library (the sequential baseline is computed afterwards); call kinds as in C08, including failing Encode calls and shared option values. each rapid case is one program: G in 2..16 goroutines, each 5..40 calls drawn from the 6 call kinds on pool inputs (campaign A: inputs without accumulating sources, B: with), released together by a barrier under a drawn GOMAXPROCS; all programs are counted non-trivial only if distinct by fingerprint; the class 'program with overlapping same-kind calls' (measured with per-call timestamps) shows how many actually overlapped.",
     "assumptions": ["race detector soundness for the executed schedules", "schedules are sampled by the Go scheduler"],
 }
 
